@@ -857,6 +857,7 @@ func init() {
 			c.ResolvedName("C07")
 			c.LosslessSplit("C07")
 			c.CreatedIsChecked("C07")
+			c.CredentialsRequestScoped("C19") // every decision is taken under the request's own authenticated name
 			c.ConfigOrderPreserved("C07")
 			c.DispatchTable("C07")
 			c.PreCheckRules("C07")
